@@ -136,6 +136,22 @@ func (combatComp) Exec(c *wire.Case, w *wire.Writer) {
 		e.Healer.AddProperty("adj", prop.ATKFlat, healAdj.Flt("aatk"))
 		e.Target.AddProperty("adj", prop.HealTaken, healAdj.Flt("ataken"))
 	}, 1)
+	// a hit listener that adjusts the stats snapshots of the hit it is given (of every hit, or of the hit on one defender only)
+	var hitAdj *wire.Rec
+	ev.HitStart.Subscribe(func(e event.HitStart) {
+		if hitAdj == nil || !hitAdj.Has("hadj") {
+			return
+		}
+		if only := hitAdj.Int("honly"); only != 0 && key.TargetID(only) != e.Defender {
+			return
+		}
+		e.Hit.Attacker.AddProperty("hadj", prop.AllDamagePercent, hitAdj.Flt("hdmg"))
+		e.Hit.Attacker.AddProperty("hadj", prop.CritChance, hitAdj.Flt("hcrit"))
+		e.Hit.Defender.AddProperty("hadj", prop.AllDamageTaken, hitAdj.Flt("htaken"))
+	})
+	// units registered with revive=1 hold their death back (LimboWaitHeal cancelled): they wait at 0 HP for a heal
+	revive := map[key.TargetID]bool{}
+	ev.LimboWaitHeal.Subscribe(func(e event.LimboWaitHeal) bool { return revive[e.Target] }, 1)
 	known := map[key.TargetID]bool{}
 	for _, op := range c.Ops {
 		w.Op(op)
@@ -151,6 +167,7 @@ func (combatComp) Exec(c *wire.Case, w *wire.Writer) {
 				if known[id] {
 					return
 				}
+				revive[id] = op.Bool("revive")
 				known[id] = true
 				stub.props[id] = cstatsProps(op)
 				tgt.chars[id] = op.Bool("char")
@@ -200,6 +217,8 @@ func (combatComp) Exec(c *wire.Case, w *wire.Writer) {
 				for _, u := range op.Flts("draws") {
 					src.q = append(src.q, int64(u*(1<<63))) // Float64() = float64(Int63())/2^63
 				}
+				hitAdj = op
+				defer func() { hitAdj = nil }()
 				mgr.Attack(info.Attack{Key: key.Attack(fmt.Sprintf("a%d", op.Int("key"))), Targets: ts, Source: key.TargetID(op.Int("src")),
 					AttackType: model.AttackType(op.Int("atype")), DamageType: model.DamageType(op.Int("dtype")), BaseDamage: bd,
 					EnergyGain: op.Flt("energy"), StanceDamage: op.Flt("stance"), HitRatio: op.Flt("ratio"), AsPureDamage: op.Bool("pure"),
@@ -272,7 +291,7 @@ func cstatsInto(r *rand.Rand, op *wire.Rec, u cunit, extreme bool) *wire.Rec {
 func cunitOp(r *rand.Rand, u cunit, extreme bool) *wire.Rec {
 	maxS := pick(r, 60.0, 90, 0, 120)
 	op := wire.R("unit").F("hpr", pick(r, 1.0, 0.5, 0.25, frac(r))).F("energy", pick(r, 0.0, 50, 100)).F("maxenergy", pick(r, 100.0, 120)).
-		F("stance", pick(r, maxS, 0, maxS/2)).F("maxstance", maxS)
+		F("stance", pick(r, maxS, 0, maxS/2)).F("maxstance", maxS).B("revive", r.Intn(4) == 0)
 	return cstatsInto(r, op, u, extreme)
 }
 
@@ -293,9 +312,17 @@ func attackOp(r *rand.Rand, k int, src cunit, targets []int) *wire.Rec {
 	for range targets {
 		draws = append(draws, pick(r, 0.0, 0.05, 0.049999999999999996, 0.5, 0.7, 0.9999999999999999, float64(r.Int63n(1<<53))/(1<<53)))
 	}
-	return wire.R("attack").I("key", k).I("src", src.id).Is("targets", targets).I("atype", atype).I("dtype", pick(r, 1, 2, 3, 4, 5, 6, 7)).
+	op := wire.R("attack").I("key", k).I("src", src.id).Is("targets", targets).I("atype", atype).I("dtype", pick(r, 1, 2, 3, 4, 5, 6, 7)).
 		Ss("terms", termsStr(terms)).F("flat", pick(r, 0.0, 0, 55.5)).F("ratio", pick(r, 0.0, 1, 0.45, 0.55, -1)).B("pure", r.Intn(6) == 0).
 		F("energy", pick(r, 0.0, 20, 30)).F("stance", pick(r, 0.0, 30, 60, 90)).F("bbd", bbdOf(src.level)).Fs("draws", draws)
+	if r.Intn(3) == 0 {
+		only := 0
+		if len(targets) > 0 && r.Intn(3) != 0 {
+			only = targets[r.Intn(len(targets))]
+		}
+		op.I("hadj", 1).I("honly", only).F("hdmg", pick(r, 0.0, 0.5, 1)).F("hcrit", pick(r, 0.0, 0.3, 1)).F("htaken", pick(r, 0.0, 0.25))
+	}
+	return op
 }
 
 func healOp(r *rand.Rand, src int, targets []int, adj bool) *wire.Rec {
@@ -354,6 +381,11 @@ func (combatComp) Gen(r *rand.Rand, tier string, n int) []*wire.Case {
 	for i, d := range []float64{0.05, 0.049999999999999996, 0.050000000000000044, 0} {
 		mk(fmt.Sprintf("d-crit-%d", i), plainU(1, true, 1), plainU(2, false, 1), atk(1, 1, []int{2}, 2, 1, d))
 	}
+	// a hit listener that changes the snapshots of one hit only: the other hits of the same attack must not see it
+	mk("d-hit-adj-one-target", plainU(1, true, 1), plainU(2, false, 1), plainU(3, false, 1), plainU(4, false, 1),
+		atk(1, 1, []int{2, 3, 4}, 1, 2, 0.5).I("hadj", 1).I("honly", 2).F("hdmg", 1).F("hcrit", 0).F("htaken", 0.25), wire.R("endattack"),
+		atk(2, 1, []int{2, 3, 4}, 1, 2, 0.2).I("hadj", 1).I("honly", 3).F("hdmg", 0).F("hcrit", 1).F("htaken", 0), wire.R("endattack"),
+		atk(3, 1, []int{3, 2, 3}, 2, 2, 0.5).I("hadj", 1).I("honly", 0).F("hdmg", 0.5).F("hcrit", 0).F("htaken", 0.1), wire.R("endattack"))
 	mk("d-crit-dot", plainU(1, true, 1), plainU(2, false, 1), atk(1, 1, []int{2}, 4, 1, 0), atk(2, 1, []int{2}, 9, 1, 0), atk(3, 1, []int{2}, 5, 1, 0))
 	// clamps
 	mk("d-clamp-res", plainU(1, true, 1), set(plainU(2, false, 1), "res", seven(2, 0.95)), atk(1, 1, []int{2}, 1, 2, 0.5),
@@ -376,6 +408,11 @@ func (combatComp) Gen(r *rand.Rand, tier string, n int) []*wire.Case {
 	mk("d-heal-flat", plainU(1, true, 1), plainU(2, true, 0.5), hl(1, []int{2}, nil, 15))
 	mk("d-heal-overflow", plainU(1, true, 1), plainU(2, true, 0.9), hl(1, []int{2}, map[int]float64{1: 0.5}, 15), hl(1, []int{2}, nil, 1))
 	mk("d-heal-lost", plainU(1, true, 1), plainU(2, true, 0.25), hl(1, []int{2, 1}, map[int]float64{5: 0.2, 4: 0.01}, 0))
+	// a unit that waits in limbo for a heal: the heal brings it back with exactly the healed amount; a healer in limbo heals nothing
+	mk("d-heal-limbo", plainU(1, true, 1), plainU(2, true, 1).B("revive", true), plainU(3, false, 1),
+		set(atk(1, 3, []int{2}, 1, 2, 0.5), "flat", wire.FStr(100000)), wire.R("endattack"), hl(2, []int{1}, map[int]float64{1: 0.1}, 15),
+		hl(1, []int{2, 1}, map[int]float64{1: 0.1}, 150), hl(1, []int{2}, map[int]float64{1: 0.1}, 15), set(atk(2, 3, []int{2}, 1, 2, 0.5), "flat", wire.FStr(100000)), wire.R("endattack"),
+		hl(1, []int{2}, map[int]float64{2: 0.5}, 0), set(atk(3, 3, []int{1}, 1, 2, 0.5), "flat", wire.FStr(100000)), wire.R("endattack"), hl(2, []int{1}, map[int]float64{1: 0.1}, 15))
 	mk("d-heal-adj", plainU(1, true, 1), plainU(2, true, 0.5), hl(1, []int{2}, map[int]float64{1: 0.1}, 15).I("adj", 1).F("aflat", 7).I("akind", 0).F("aterm", 0).F("aatk", 0).F("ataken", 0),
 		hl(1, []int{2}, map[int]float64{1: 0.1}, 0).I("adj", 1).F("aflat", 0).I("akind", 3).F("aterm", 0.05).F("aatk", 100).F("ataken", 0.2))
 	mk("d-heal-bonus", set(plainU(1, true, 1), "healboost", wire.FStr(0.3)), set(plainU(2, true, 0.1), "healtaken", wire.FStr(0.2)), hl(1, []int{2}, map[int]float64{3: 0.1}, 5),
